@@ -1,5 +1,5 @@
-(* Args.v — frontends/tui/arguments.py (_split_command, _select_mode, the option table as far as it
-   is modelled) and backends/gdb_plugin/runner.py (how sys.argv is re-created inside GDB). *)
+(* Args.v — frontends/tui/arguments.py (_split_command, _select_mode, the option table as argparse
+   reads it) and backends/gdb_plugin/runner.py (how sys.argv is re-created inside GDB). *)
 From WD Require Import Base Wire Conn Color Matcher MatcherParse Show.
 Open Scope N_scope.
 
@@ -45,45 +45,244 @@ Fixpoint split_command (args : list str) : res (list str * str * list str) :=
       end
   end.
 
-(* ---- the option table (argparse itself is not modelled: only exact spellings with separate
-   values; anything else is out of model) --------------------------------------------------------- *)
+(* ---- the option table and argparse (Python 3.12: ArgumentParser with allow_abbrev, prefix_chars
+   "-", no positionals, no mutually exclusive groups), as far as parse_args observes it ------------- *)
 Record opts := mkOpts {
   o_load : option str; o_pipe : bool; o_filter : option str; o_break : option str;
   o_no_color : bool; o_color : bool; o_supress : bool; o_verbose : bool; o_libwayland : option str;
   o_matcher_help : bool; o_run : bool; o_gdb : bool }.
 Definition opts0 : opts := mkOpts None false None None false false false false None false false false.
 
-Fixpoint parse_opts (fuel : nat) (ws : list str) (o : opts) : res opts :=
-  match fuel with
-  | O => Raise OutOfFuel []
-  | S f =>
-      match ws with
-      | [] => Ok o
-      | w :: rest =>
-          let flag (o' : opts) := parse_opts f rest o' in
-          let valued (set : str -> opts) :=
-            match rest with
-            | v :: rest' => if starts_with [45] v then Raise OutOfModel [] else parse_opts f rest' (set v)
-            | [] => Raise OutOfModel []
-            end in
-          if str_eqb w (s2l "-p") || str_eqb w (s2l "--pipe") then
-            flag (mkOpts (o_load o) true (o_filter o) (o_break o) (o_no_color o) (o_color o) (o_supress o) (o_verbose o) (o_libwayland o) (o_matcher_help o) (o_run o) (o_gdb o))
-          else if str_eqb w (s2l "-C") || str_eqb w (s2l "--no-color") then
-            flag (mkOpts (o_load o) (o_pipe o) (o_filter o) (o_break o) true (o_color o) (o_supress o) (o_verbose o) (o_libwayland o) (o_matcher_help o) (o_run o) (o_gdb o))
-          else if str_eqb w (s2l "--color") then
-            flag (mkOpts (o_load o) (o_pipe o) (o_filter o) (o_break o) (o_no_color o) true (o_supress o) (o_verbose o) (o_libwayland o) (o_matcher_help o) (o_run o) (o_gdb o))
-          else if str_eqb w (s2l "--supress") then
-            flag (mkOpts (o_load o) (o_pipe o) (o_filter o) (o_break o) (o_no_color o) (o_color o) true (o_verbose o) (o_libwayland o) (o_matcher_help o) (o_run o) (o_gdb o))
-          else if str_eqb w (s2l "--verbose") then
-            flag (mkOpts (o_load o) (o_pipe o) (o_filter o) (o_break o) (o_no_color o) (o_color o) (o_supress o) true (o_libwayland o) (o_matcher_help o) (o_run o) (o_gdb o))
-          else if str_eqb w (s2l "-l") || str_eqb w (s2l "--load") then
-            valued (fun v => mkOpts (Some v) (o_pipe o) (o_filter o) (o_break o) (o_no_color o) (o_color o) (o_supress o) (o_verbose o) (o_libwayland o) (o_matcher_help o) (o_run o) (o_gdb o))
-          else if str_eqb w (s2l "-f") || str_eqb w (s2l "--filter") then
-            valued (fun v => mkOpts (o_load o) (o_pipe o) (Some v) (o_break o) (o_no_color o) (o_color o) (o_supress o) (o_verbose o) (o_libwayland o) (o_matcher_help o) (o_run o) (o_gdb o))
-          else if str_eqb w (s2l "-b") || str_eqb w (s2l "--break") then
-            valued (fun v => mkOpts (o_load o) (o_pipe o) (o_filter o) (Some v) (o_no_color o) (o_color o) (o_supress o) (o_verbose o) (o_libwayland o) (o_matcher_help o) (o_run o) (o_gdb o))
-          else Raise OutOfModel []
+Inductive action :=
+| AHelp | AMatcherHelp | ARun | AGdb | ALoad | APipe | AFilter | ABreak | ANoColor | AColor | ASupress | AVerbose | ALibwayland.
+
+(* parser._option_string_actions, in insertion order (-h/--help are added by ArgumentParser itself) *)
+Definition option_table : list (str * action) :=
+  [(s2l "-h", AHelp); (s2l "--help", AHelp); (s2l "--matcher-help", AMatcherHelp);
+   (s2l "-r", ARun); (s2l "--run", ARun); (s2l "-g", AGdb); (s2l "--gdb", AGdb);
+   (s2l "-l", ALoad); (s2l "--load", ALoad); (s2l "-p", APipe); (s2l "--pipe", APipe);
+   (s2l "-f", AFilter); (s2l "--filter", AFilter); (s2l "-b", ABreak); (s2l "--break", ABreak);
+   (s2l "-C", ANoColor); (s2l "--no-color", ANoColor); (s2l "--color", AColor); (s2l "--supress", ASupress);
+   (s2l "--verbose", AVerbose); (s2l "--libwayland", ALibwayland)].
+
+(* nargs: None (one value) for the type=str options, 0 for store_true and help *)
+Definition takes_value (a : action) : bool :=
+  match a with ALoad | AFilter | ABreak | ALibwayland => true | _ => false end.
+
+Fixpoint assoc (t : list (str * action)) (s : str) : option action :=
+  match t with
+  | [] => None
+  | (k, a) :: t' => if str_eqb k s then Some a else assoc t' s
+  end.
+Definition lookup (s : str) : option action := assoc option_table s.
+
+(* option strings that start with the given text (abbreviations of long options) *)
+Definition long_matches (prefix : str) : list (str * action) :=
+  filter (fun e => starts_with prefix (fst e)) option_table.
+
+(* s.split("=", 1) when "=" occurs *)
+Fixpoint split_eq (s : str) : option (str * str) :=
+  match s with
+  | [] => None
+  | c :: r => if N.eqb c 61 then Some ([], r)
+              else match split_eq r with Some (a, b) => Some (c :: a, b) | None => None end
+  end.
+
+(* option_string[1] not in prefix_chars *)
+Definition is_short (s : str) : bool :=
+  match s with _ :: c :: _ => negb (N.eqb c 45) | _ => false end.
+
+(* _negative_number_matcher: ^-\d+$|^-\d*\.\d+$ (ASCII text; $ also matches before one final newline) *)
+Definition negnum_body (s : str) : bool :=
+  match drop_while is_digit s with
+  | [] => match s with [] => false | _ => true end
+  | 46 :: r => match r with [] => false | _ => forallb is_digit r end
+  | _ => false
+  end.
+Definition looks_negative (w : str) : bool :=
+  match w with
+  | 45 :: s => negnum_body s || (ends_with [10] s && negnum_body (removelast s))
+  | _ => false
+  end.
+
+(* _parse_optional: how one word (other than the first "--") enters the pattern *)
+Inductive cls :=
+| CArg                                                    (* "A": can be the value of an option *)
+| CSep                                                    (* "-": the first "--" *)
+| COpt (a : action) (short : bool) (explicit : option str) (* "O" *)
+| CUnknown                                                (* "O" without an action: an extra *)
+| CAmbiguous                                              (* parser.error: ambiguous option *)
+| CUnmodelled.                                            (* non-ASCII option-like word *)
+
+(* no option string matched *)
+Definition classify_rest (w : str) : cls :=
+  if looks_negative w then CArg else if mem_char 32 w then CArg else CUnknown.
+
+Definition classify_word (w : str) : cls :=
+  match w with
+  | [] => CArg
+  | c :: w1 =>
+      if negb (N.eqb c 45) then CArg
+      else if negb (all_ascii w) then CUnmodelled
+      else
+        match lookup w with
+        | Some a => COpt a (is_short w) None
+        | None =>
+            match w1 with
+            | [] => CArg
+            | c1 :: w2 =>
+                (* _get_option_tuples *)
+                let by_prefix :=
+                  if N.eqb c1 45 then
+                    let pe := match split_eq w with Some (p, e) => (p, Some e) | None => (w, None) end in
+                    match long_matches (fst pe) with
+                    | [] => classify_rest w
+                    | [(_, a)] => COpt a false (snd pe)
+                    | _ => CAmbiguous
+                    end
+                  else
+                    (* only the two-character prefix can match: every longer option string starts with
+                       two dashes (ArgsProofsB.long_options_have_two_dashes) *)
+                    match lookup [45; c1] with
+                    | Some a => COpt a true (Some w2)
+                    | None => classify_rest w
+                    end in
+                match split_eq w with
+                | Some (p, e) => match lookup p with Some a => COpt a (is_short p) (Some e) | None => by_prefix end
+                | None => by_prefix
+                end
+            end
+        end
+  end.
+
+(* the pattern, each class with its word *)
+Fixpoint classify_all (ws : list str) : list (cls * str) :=
+  match ws with
+  | [] => []
+  | w :: rest =>
+      if str_eqb w (s2l "--") then (CSep, w) :: map (fun x => (CArg, x)) rest
+      else (classify_word w, w) :: classify_all rest
+  end.
+
+(* consume_optional: the actions one option word stands for *)
+Inductive tail :=
+| TDone                         (* flags only *)
+| TVal (a : action) (v : str)   (* a valued option with its value attached *)
+| TNext (a : action).           (* a valued option that takes the next word *)
+
+(* the letters after a flag in a single-dash word *)
+Fixpoint cluster_rest (e : str) : option (list action * tail) :=
+  match e with
+  | [] => Some ([], TDone)
+  | c :: e' =>
+      match lookup [45; c] with
+      | None => None                                     (* ignored explicit argument *)
+      | Some a =>
+          if takes_value a then Some ([], match e' with [] => TNext a | _ => TVal a e' end)
+          else match cluster_rest e' with Some (l, t) => Some (a :: l, t) | None => None end
       end
+  end.
+
+Definition resolve (a : action) (short : bool) (explicit : option str) : option (list action * tail) :=
+  match explicit with
+  | None => if takes_value a then Some ([], TNext a) else Some ([a], TDone)
+  | Some e =>
+      if takes_value a then Some ([], TVal a e)
+      else if short && match e with [] => false | _ => true end
+           then match cluster_rest e with Some (l, t) => Some (a :: l, t) | None => None end
+           else None                                     (* ignored explicit argument *)
+  end.
+
+(* store_true; None = the help action (prints the help text and exits 0: not modelled) *)
+Definition set_flag (a : action) (o : opts) : option opts :=
+  match a with
+  | AHelp => None
+  | AMatcherHelp => Some (mkOpts (o_load o) (o_pipe o) (o_filter o) (o_break o) (o_no_color o) (o_color o) (o_supress o) (o_verbose o) (o_libwayland o) true (o_run o) (o_gdb o))
+  | ARun => Some (mkOpts (o_load o) (o_pipe o) (o_filter o) (o_break o) (o_no_color o) (o_color o) (o_supress o) (o_verbose o) (o_libwayland o) (o_matcher_help o) true (o_gdb o))
+  | AGdb => Some (mkOpts (o_load o) (o_pipe o) (o_filter o) (o_break o) (o_no_color o) (o_color o) (o_supress o) (o_verbose o) (o_libwayland o) (o_matcher_help o) (o_run o) true)
+  | APipe => Some (mkOpts (o_load o) true (o_filter o) (o_break o) (o_no_color o) (o_color o) (o_supress o) (o_verbose o) (o_libwayland o) (o_matcher_help o) (o_run o) (o_gdb o))
+  | ANoColor => Some (mkOpts (o_load o) (o_pipe o) (o_filter o) (o_break o) true (o_color o) (o_supress o) (o_verbose o) (o_libwayland o) (o_matcher_help o) (o_run o) (o_gdb o))
+  | AColor => Some (mkOpts (o_load o) (o_pipe o) (o_filter o) (o_break o) (o_no_color o) true (o_supress o) (o_verbose o) (o_libwayland o) (o_matcher_help o) (o_run o) (o_gdb o))
+  | ASupress => Some (mkOpts (o_load o) (o_pipe o) (o_filter o) (o_break o) (o_no_color o) (o_color o) true (o_verbose o) (o_libwayland o) (o_matcher_help o) (o_run o) (o_gdb o))
+  | AVerbose => Some (mkOpts (o_load o) (o_pipe o) (o_filter o) (o_break o) (o_no_color o) (o_color o) (o_supress o) true (o_libwayland o) (o_matcher_help o) (o_run o) (o_gdb o))
+  | ALoad | AFilter | ABreak | ALibwayland => Some o
+  end.
+Fixpoint apply_flags (l : list action) (o : opts) : option opts :=
+  match l with
+  | [] => Some o
+  | a :: l' => match set_flag a o with Some o' => apply_flags l' o' | None => None end
+  end.
+
+(* store *)
+Definition set_value (a : action) (v : str) (o : opts) : opts :=
+  match a with
+  | ALoad => mkOpts (Some v) (o_pipe o) (o_filter o) (o_break o) (o_no_color o) (o_color o) (o_supress o) (o_verbose o) (o_libwayland o) (o_matcher_help o) (o_run o) (o_gdb o)
+  | AFilter => mkOpts (o_load o) (o_pipe o) (Some v) (o_break o) (o_no_color o) (o_color o) (o_supress o) (o_verbose o) (o_libwayland o) (o_matcher_help o) (o_run o) (o_gdb o)
+  | ABreak => mkOpts (o_load o) (o_pipe o) (o_filter o) (Some v) (o_no_color o) (o_color o) (o_supress o) (o_verbose o) (o_libwayland o) (o_matcher_help o) (o_run o) (o_gdb o)
+  | ALibwayland => mkOpts (o_load o) (o_pipe o) (o_filter o) (o_break o) (o_no_color o) (o_color o) (o_supress o) (o_verbose o) (Some v) (o_matcher_help o) (o_run o) (o_gdb o)
+  | _ => o
+  end.
+(* _get_values strips a "--" out of the value list: an attached value "--" (--load=--) is stored as
+   the empty list, which parse_args cannot tell from the empty string *)
+Definition norm_value (v : str) : str := if str_eqb v (s2l "--") then [] else v.
+
+Inductive ap_result :=
+| APOk (o : opts)     (* the namespace *)
+| APError             (* parser.error: usage and message on stderr, SystemExit(2) *)
+| APOut.              (* not modelled: the help action was taken, or a non-ASCII option-like word *)
+
+(* the consume loop; extras: some word so far was left over (reported after the loop) *)
+Fixpoint run_opts (items : list (cls * str)) (o : opts) (extras : bool) : ap_result :=
+  match items with
+  | [] => if extras then APError else APOk o
+  | (c, _) :: rest =>
+      match c with
+      | CArg | CSep | CUnknown => run_opts rest o true
+      | CAmbiguous => APError
+      | CUnmodelled => APOut
+      | COpt a short explicit =>
+          match resolve a short explicit with
+          | None => APError
+          | Some (flags, TDone) =>
+              match apply_flags flags o with Some o' => run_opts rest o' extras | None => APOut end
+          | Some (flags, TVal a' v) =>
+              match apply_flags flags o with
+              | Some o' => run_opts rest (set_value a' (norm_value v) o') extras
+              | None => APOut
+              end
+          | Some (flags, TNext a') =>
+              match rest with
+              | (CArg, v) :: rest' =>
+                  match apply_flags flags o with
+                  | Some o' => run_opts rest' (set_value a' (norm_value v) o') extras
+                  | None => APOut
+                  end
+              | _ => APError                             (* expected one argument *)
+              end
+          end
+      end
+  end.
+
+Definition is_unmodelled (i : cls * str) : bool := match fst i with CUnmodelled => true | _ => false end.
+Definition is_ambiguous (i : cls * str) : bool := match fst i with CAmbiguous => true | _ => false end.
+
+(* parser.parse_args(ws) starting from the namespace o; the pattern is built (and ambiguity reported)
+   before anything is consumed *)
+Definition argparse (ws : list str) (o : opts) : ap_result :=
+  let items := classify_all ws in
+  if existsb is_unmodelled items then APOut
+  else if existsb is_ambiguous items then APError
+  else run_opts items o false.
+
+(* The result type of parse_args has no constructor for SystemExit(2), so a usage error is answered
+   like everything else that cannot be compared: Raise OutOfModel, here with a tag; usage_error below
+   says which vectors these are. *)
+Definition usage_error_tag : str := s2l "argparse: usage error, exit status 2".
+Definition parse_opts (ws : list str) (o : opts) : res opts :=
+  match argparse ws o with
+  | APOk o' => Ok o'
+  | APError => Raise OutOfModel usage_error_tag
+  | APOut => Raise OutOfModel []
   end.
 
 Inductive mode := MRun | MGdbRunner | MLoad | MPipe.
@@ -110,7 +309,8 @@ Definition parse_args (argv : list str) : res parsed_args :=
   | Raise RuntimeError _ => Ok PASplitError
   | Raise e m => Raise e m
   | Ok (ours, id, forwarded) =>
-      do o <- parse_opts (S (List.length ours)) (tl ours) opts0;
+      do o <- parse_opts (tl ours) opts0;
+      if o_matcher_help o then Raise OutOfModel [] else   (* prints matcher.help_text(), exit(0) *)
       match select_mode id o with
       | None => Ok PAUsage
       | Some m =>
@@ -135,6 +335,13 @@ Definition parse_args (argv : list str) : res parsed_args :=
               end
           end
       end
+  end.
+
+(* parse_args ends in argparse's error exit (status 2): nothing else of it is observable *)
+Definition usage_error (argv : list str) : bool :=
+  match split_command argv with
+  | Ok (ours, _, _) => match argparse (tl ours) opts0 with APError => true | _ => false end
+  | Raise _ _ => false
   end.
 
 (* ---- run_gdb: re-creating sys.argv inside GDB --------------------------------------------------- *)
